@@ -59,7 +59,10 @@ var c17BaseTypes = []string{"int64", "string", "float64", "bool", "[]int64", "[]
 // (mixed: an array of ints and strings; intsplus: an int array that a string was appended to - its cached type still
 // says ints; typeobj: a type itself, not a value of it; keysi/keyss: the key list of a hash, an array like any other)
 var c17Kinds = []string{"int", "char", "float", "bool", "string", "ints", "strs", "empty", "nil", "ptr0", "ptr1", "inst0", "inst1", "inst2", "nilarr", "listarr",
-	"mixed", "intsplus", "typeobj", "keysi", "keyss"}
+	"mixed", "intsplus", "typeobj", "keysi", "keyss",
+	// values of the language's other types (none of them is a value of a declared base, slice, pointer or struct type),
+	// arrays made by map, arrays whose cached type is stale
+	"dur", "fnv", "symv", "listv", "uint", "rawv", "mapints", "mapstrs", "staleints", "staleempty"}
 
 func typeSrc(t string) string {
 	switch {
@@ -92,9 +95,9 @@ func fits(kind, t string) bool {
 	case "bool":
 		return kind == "bool"
 	case "[]int64":
-		return kind == "ints" || kind == "empty" || kind == "keysi"
+		return kind == "ints" || kind == "empty" || kind == "keysi" || kind == "mapints" || kind == "staleints" || kind == "staleempty"
 	case "[]string":
-		return kind == "strs" || kind == "empty" || kind == "keyss"
+		return kind == "strs" || kind == "empty" || kind == "keyss" || kind == "mapstrs"
 	}
 	if strings.HasPrefix(t, "*S") {
 		return kind == "ptr"+t[2:]
@@ -252,6 +255,28 @@ func execC17(body json.RawMessage) *kernel.Result {
 			return "(keys (hash 5 1 6 2))"
 		case "keyss":
 			return `(keys (hash "k" 1))`
+		case "dur":
+			return `(dur "1s")`
+		case "fnv":
+			return "(fn [] 1)"
+		case "symv":
+			return "(quote zz)"
+		case "listv":
+			return "(list 1 2)"
+		case "uint":
+			return "3ULL"
+		case "rawv":
+			return `(raw "ab")`
+		case "mapints":
+			return "(map (fn [x] x) [7 8])"
+		case "mapstrs":
+			return "(map (fn [x] (str x)) [1 2])"
+		case "staleints":
+			// ints in an array that was typed as strings while it held strings
+			return `(let [e ["m" "n"]] (type? e) (hset (hash) a: e) (append (append (slice e 2 2) 1) 2))`
+		case "staleempty":
+			// an int in an array that was typed while it was empty
+			return "(let [e []] (type? e) (append e 5))"
 		}
 		if strings.HasPrefix(kind, "ptr") || strings.HasPrefix(kind, "inst") {
 			isPtr := strings.HasPrefix(kind, "ptr")
@@ -758,6 +783,15 @@ func genC17(r *kernel.RNG, tier string, i int) interface{} {
 	ptrs := map[[2]int]int{}
 	decl := func(e, s int) {
 		fs := genFields(r, s)
+		if r.Chance(0.3) {
+			// word for word the field list of another struct: the same layout under another name is another type
+			for k := 0; k < 3; k++ {
+				if k != s && len(declared[k]) > 0 {
+					fs = append([]sField{}, declared[k]...)
+					break
+				}
+			}
+		}
 		var ok []sField
 		for _, f := range fs {
 			if strings.Contains(f.Type, "S") {
@@ -790,6 +824,10 @@ func genC17(r *kernel.RNG, tier string, i int) interface{} {
 			if len(fit) > 0 {
 				return r.Pick(fit)
 			}
+		}
+		// a near miss for record and pointer fields: an instance of (a pointer to) another struct
+		if (strings.HasPrefix(t, "S") || strings.HasPrefix(t, "*S")) && r.Chance(0.6) {
+			return r.Pick([]string{"inst0", "inst1", "inst2", "ptr0", "ptr1"})
 		}
 		return r.Pick(c17Kinds)
 	}
@@ -843,6 +881,32 @@ func genC17(r *kernel.RNG, tier string, i int) interface{} {
 				op.Field = undeclaredName(r, fs)
 				if r.Chance(0.5) {
 					op.Kind = r.Pick(c17Kinds)
+				}
+			}
+			if strings.HasPrefix(f.Type, "S") && op.Field == f.Name && r.Chance(0.5) {
+				// the nearest miss for a record field: an instance of another struct with the very same field list
+				var i0 int
+				fmt.Sscanf(f.Type[1:], "%d", &i0)
+				for j0 := 0; j0 < 3; j0++ {
+					if j0 != i0 && len(declared[j0]) > 0 && fmt.Sprint(declared[j0]) == fmt.Sprint(declared[i0]) && bound[[2]int{e, j0}] {
+						op.Kind = fmt.Sprintf("inst%d", j0)
+						have := false
+						for v := 0; v < 4; v++ {
+							if sj, ok := inst[[2]int{e, v}]; ok && sj == j0 {
+								have = true
+							}
+						}
+						if !have {
+							for v := 0; v < 4; v++ {
+								if v != op.Var {
+									sc.Ops = append(sc.Ops, sOp{Op: "new", Env: e, Struct: j0, Var: v})
+									inst[[2]int{e, v}] = j0
+									break
+								}
+							}
+						}
+						break
+					}
 				}
 			}
 			op.Route = r.Pick([]string{"hset", "dot", "infix", "index", "hset", "strkey"})
